@@ -267,6 +267,9 @@ func variant(p progT, field int) progT {
 	switch field {
 	case 0:
 		p.path += "x"
+	case 5:
+		// another program with the same last path element: the count files' names differ in the date only
+		p.path = strings.Replace(p.path, "example.com/", "example.com/fork/", 1)
 	case 1:
 		p.ver += "1"
 	case 2:
@@ -539,6 +542,7 @@ func scenario() {
 					continue
 				}
 				used[key] = true
+				used["file:"+filepath.Base(p.path)+p.ver+p.gover+p.goos+p.goarch+now.Format("2006-01-02")] = true
 				var ctrs [][2]int64
 				if forced {
 					ctrs = [][2]int64{{int64(pi), int64(1 + rnd.Intn(5))}, {3, int64(1 + rnd.Intn(5))}}
@@ -572,15 +576,16 @@ func scenario() {
 		for j := 0; j < nf; j++ {
 			p := bp
 			if j > 0 && !rnd.Chance(30) {
-				fld := rnd.Intn(5)
+				fld := rnd.Intn(6)
 				p = variant(bp, fld)
-				out.Note("ident-differs-" + []string{"Program", "Version", "GoVersion", "GOOS", "GOARCH"}[fld])
+				out.Note("ident-differs-" + []string{"Program", "Version", "GoVersion", "GOOS", "GOARCH", "Program-same-base"}[fld])
 			} else if j > 0 {
 				out.Note("ident-same")
 			}
 			// a begin date in the seven days before the common end: same report week
 			now := end0.Add(-time.Duration(1+rnd.Intn(7))*day + time.Duration(rnd.Intn(80000))*time.Second)
-			key := p.path + p.ver + p.gover + p.goos + p.goarch + now.Format("2006-01-02")
+			// the file name holds path.Base(program), version, toolchain, platform and the begin date
+			key := "file:" + filepath.Base(p.path) + p.ver + p.gover + p.goos + p.goarch + now.Format("2006-01-02")
 			if used[key] || used[p.path+p.ver+now.Format("2006-01-02")] {
 				continue
 			}
